@@ -1,6 +1,7 @@
 """A utility class used to manage Zorg files lives here."""
 
 from pathlib import Path
+import re
 from typing import NewType, Optional
 
 from zorg.domain.models import Note
@@ -62,8 +63,13 @@ class FileManager:
         """Removes {note} from its last known *.zo file."""
         zpage = c.prepend_zdir(self._zdir, note.file_path)
         assert note.zid is not None
+        # The note starts on the line that carries the ZID as its own ID, i.e.
+        # right after the note's prefix (not merely mentions it).
+        first_line_pattern = re.compile(
+            r"^\s*[-ox~<>] (P[0-9] )?([0-9]{6} )?" + re.escape(note.zid) + r"( |$)"
+        )
         for i, line in enumerate(zpage.read_text().split("\n")):
-            if f" {note.zid} " in line:
+            if first_line_pattern.match(line):
                 start_idx = i
                 break
         else:
